@@ -271,7 +271,25 @@ class FsSeam:
 
             return f
 
+        import subprocess as _subprocess
+
+        real_run = _subprocess.run
+
+        def s_run(*a: Any, **kw: Any):  # type: ignore[no-untyped-def]
+            # a child process started by the generator (a post hook) is a peer that works in a directory of its own choosing:
+            # the spawn is an operation like any other (numbered, can be the crash point, can fail with an errno)
+            where = kw.get("cwd") or os.getcwd()
+            rec = seam._begin("spawn", seam._abs(str(where)), cmd=str(a[0] if a else kw.get("args"))[:80])
+            try:
+                out = real_run(*a, **kw)
+            except BaseException as e:  # noqa: BLE001
+                seam._end(rec, e)
+                raise
+            seam._end(rec)
+            return out
+
         patches: list[tuple[Any, str, Any]] = [
+            (_subprocess, "run", s_run),
             (builtins, "open", s_open),
             (io, "open", s_open),
             (os, "open", s_os_open),
@@ -312,7 +330,7 @@ class FsSeam:
                     op=r["op"],
                     path=r["path"],
                     ok=r.get("ok"),
-                    extra="".join(f" {x}={r[x]}" for x in ("len", "sha", "err", "fault", "torn_len", "src", "blocked") if x in r),
+                    extra="".join(f" {x}={r[x]}" for x in ("len", "sha", "err", "fault", "torn_len", "src", "blocked", "cmd") if x in r),
                 )
             )
         return out
